@@ -117,6 +117,8 @@ func (h *historyBuffer) ResetWithIndex(index uint64) {
 	h.head = 0
 	h.tail = 0
 	h.flushCount = defaultFlushCount
+	// Persist the new index, otherwise a restart falls back to the index saved before the reset.
+	h.persist()
 }
 
 func (h *historyBuffer) GetNextIndex() uint64 {
